@@ -8,7 +8,7 @@ from .. import AnalysisError
 from ..astutil import Deps, is_name, norm_cond
 from ..cfg import CFG, Node
 from ..engine import Analysis
-from ..kinds import NOVALUE, anything, both, call_nodes, calls_to, normal_only, q, scenario, strict_but, token_assert
+from ..kinds import NOVALUE, anything, both, call_nodes, calls_to, normal_only, q, scenario, strict_but, token_assert, token_assert_for
 from ..loader import FunctionInfo, dotted, parent, stmt_text
 from . import c02
 
@@ -215,7 +215,7 @@ def check(an: Analysis) -> None:
         ob.inst(mexit, fcalls[0].ast)
         if dotted(fcalls[0].ast.func.value) != "self._metrics":  # type: ignore[union-attr]
             ob.fail(mexit, fcalls[0].ast, "finishes a different metrics scope than its own")
-        w = gx.must_pass(lambda n: n in fcalls, raising=strict_but(token_assert))
+        w = gx.must_pass(lambda n: n in fcalls, raising=strict_but(token_assert_for(prog, mexit)))
         if w is not None:
             ob.fail(mexit, fcalls[0].ast, "a path leaves MetricsContext.__exit__ without finishing the metrics scope", CFG.show_path(w))
 
